@@ -150,6 +150,7 @@ def oracleC08 (c : Json) (d : Diff) (impl : Outcome Json) : String :=
   let o : Opts := if d.any (fun h => h.path.any (fun e => match e with | .mset | .msetKeys _ => true | _ => false)) then [.mset] else [.set]
   let res := compareRef (equivB o) impl (applyRefAll c d)
   if res == "ok" then res
+  else if (match impl with | .panic => true | _ => false) then res   -- a panic belongs to no known-finding class
   -- a SET hunk that lists one element twice under `-` is malformed; the property does not say whether
   -- the second removal finds the element "absent" (the code rejects: SetPatch `duplicate removals
   -- rejected`) or whether the list is read as a set (the reference): a rejection is accepted
